@@ -90,6 +90,10 @@ class Walk:
         cls = type(n).__name__
         if cls in ('VariableDeclaration', 'ProcedureDeclaration'):
             for s in n.symbols:
+                if not hasattr(s, 'name'):
+                    # a transformation left an expression where the declared name belongs: nothing is declared by it; the
+                    # expression is walked like any other argument of the node and the backend oracle (fgen) judges the node
+                    continue
                 self.declared.add(s.name.lower())
                 t = getattr(s, 'type', None)
                 if cls == 'VariableDeclaration' and t is not None:
